@@ -320,7 +320,37 @@ def rule_nbr_table(ctx, tu):
     ctx.check(len(pairs) == 2 and {(b, a) for a, b in pairs} == pairs, R, g.node, g.qual,
               "mesh_neighbor_index[a].push_back(b) for (a, b) in %s" % sorted(pairs), "each edge from both end points",
               "edges are not registered symmetrically: %s" % sorted(pairs))
-    ctx.floor(R, 2)
+    # the three per-node lists (neighbour, contact surface, distance) are parallel: entry n of each describes the same edge.  They
+    # are filled by push_back in one order and read by subscript; anything that re-orders, removes or inserts in one of them
+    # (a sort, erase, reverse, swap, an iterator handed to an algorithm) pairs an edge with another edge's surface and distance
+    PAR = ("mesh_neighbor_index", "mesh_neighbor_sfc", "mesh_neighbor_dst")
+    OKM = {"push_back", "emplace_back", "size", "clear", "resize", "reserve", "empty", "at", "operator[]", "data", "capacity",
+           "assign"}
+    seen = 0
+    for fn_ in tu.all_fns():
+        if fn_.body is None:
+            continue
+        for n_ in walk(fn_.body):
+            if n_.get("kind") != "CXXMemberCallExpr":
+                continue
+            cp = call_parts(n_)
+            if cp is None or cp[1] is None:
+                continue
+            try:
+                obj = cxa.canon(cp[1])
+            except Exception:
+                continue
+            if not any(obj == t_ or obj.startswith(t_ + "[") for t_ in PAR):
+                continue
+            seen += 1
+            if cp[0] not in OKM:
+                ctx.violation(R, n_, fn_.qual, text(n_)[:80], "`%s` of one of the parallel neighbour lists: its entries are "
+                              "re-ordered / removed without the same change to the two others, so a neighbour is paired with "
+                              "another edge's surface and distance (the edge constants of the two directions no longer match)"
+                              % cp[0])
+    ctx.need(seen >= 6, R, "uses of the parallel neighbour lists not found")
+    ctx.ok(R, g.node, g.qual, "%d member calls on the parallel neighbour lists" % seen, "push_back / size / subscript only")
+    ctx.floor(R, 3)
 
 
 def run(ctx):
